@@ -183,7 +183,7 @@ func LoadSites() bool {
 			siteClass[s.ID] = ClassGradRule
 		case strings.Contains(s.Pos, "/gradtrack/back_propagation") || (strings.Contains(s.Pos, "/gradtrack/") && (s.Kind == "for" || s.Kind == "range")):
 			siteClass[s.ID] = ClassBackprop
-		case strings.Contains(s.Fn, "Rand") || strings.Contains(s.Fn, "RandomTensor"):
+		case strings.Contains(s.Fn, "Rand") || strings.Contains(s.Fn, "RandomTensor") || strings.Contains(s.Pos, "/initializers/"):
 			siteClass[s.ID] = ClassRNG
 		case strings.Contains(s.Fn, "ElemGenerator") || strings.Contains(s.Fn, "initWith") ||
 			strings.Contains(s.Fn, "calcData") || strings.Contains(s.Fn, "copyData") || strings.Contains(s.Fn, "fill"):
